@@ -41,6 +41,10 @@ type payload struct {
 	Modules   map[string]string    `json:"modules,omitempty"`
 	Inputs    map[string]*lang.Val `json:"inputs,omitempty"`
 	MaxAllocs int64                `json:"max_allocs"` // 0 = unlimited
+	// AllowCycles: the program only applies operations outside open finding
+	// F10 to the self-containing values it builds (cyclic_test.go); it runs
+	// without the cycle guard and its values are never traversed host-side
+	AllowCycles bool `json:"allow_cycles,omitempty"`
 }
 
 const instrBudget = 3000000
@@ -60,8 +64,9 @@ func clip(s string) string {
 }
 
 // guarded runs f with the probe guard installed; returns the guard state.
-func guarded(f func()) *guard.State {
+func guarded(f func(), allowCycles bool) *guard.State {
 	st := &guard.State{Budget: instrBudget, MaxElems: 1 << 16}
+	st.NoCycleStop = allowCycles
 	if os.Getenv("VERIF_C05_UNGUARDED") != "" {
 		// sacrificial child of TestKnownFindings: let the excluded
 		// operation happen
@@ -126,7 +131,7 @@ func runCase(p payload) (o outcome) {
 		ctx, cancel := context.WithTimeout(context.Background(), 60*time.Second)
 		defer cancel()
 		runErr = c.RunContext(ctx)
-	})
+	}, p.AllowCycles)
 	o.steps = st.Steps()
 	if pan != nil {
 		o.fail = fmt.Sprintf("panic propagated out of RunContext: %v", pan)
@@ -165,9 +170,19 @@ func runCase(p payload) (o outcome) {
 	o.classes = append(o.classes, cls)
 	// 3: the compiled object remains usable
 	all := c.GetAll()
+	huge := false
 	for _, v := range all {
 		_ = c.Get(v.Name())
 		_ = c.IsDefined(v.Name())
+		if p.AllowCycles {
+			continue // String()/Value() of a self-containing value is F10
+		}
+		if guard.TreeSize(v.Object()) > 1<<18 {
+			// small as a graph, huge as a tree (parts shared many times):
+			// String / Value / Clone expand it - an unbounded allocation
+			huge = true
+			continue
+		}
 		// 4: values handed back can be traversed; a Go nil inside is a crash waiting for the host
 		if tv.HasNil(v.Object()) {
 			o.fail = fmt.Sprintf("variable %q holds a Go-nil Object after the run: %s", v.Name(), tv.Describe(v.Object()))
@@ -211,7 +226,7 @@ func runCase(p payload) (o outcome) {
 				o.fail = fmt.Sprintf("Clone after the run panicked: %v", r)
 			}
 		}()
-		if !hasDeep(all) {
+		if !p.AllowCycles && !huge && !hasDeep(all) { // Clone copies every global: F10 on a self-containing value
 			clone = c.Clone()
 		}
 	}()
@@ -234,7 +249,7 @@ func runCase(p payload) (o outcome) {
 			ctx, cancel := context.WithTimeout(context.Background(), 60*time.Second)
 			defer cancel()
 			err2 = obj.RunContext(ctx)
-		})
+		}, p.AllowCycles)
 		if pan2 != nil {
 			o.fail = fmt.Sprintf("panic propagated out of the second RunContext (object %d): %v", i, pan2)
 			return
@@ -246,6 +261,9 @@ func runCase(p payload) (o outcome) {
 			o.fail = "second RunContext hit the 60 s context"
 			return
 		}
+	}
+	if huge {
+		o.classes = append(o.classes, "huge-shared-structure(not traversed)")
 	}
 	o.classes = append(o.classes, "post-run-usability-checked")
 	return
